@@ -92,8 +92,10 @@ pub fn wire(rec: &mut Recorder, rng: &mut Rng, thorough: bool) {
     // packets with payload lengths 0..64 and some long ones
     let mut lens: Vec<usize> = (0..=64).collect();
     lens.extend([100, 255, 256, 1000, 1024, 4096]);
+    // the largest symbol sizes (T is a 16-bit field) and buffers whose length does not fit 16 bits
+    lens.extend([65531, 65532, 65535, 65536, 65540, 131075]);
     for &len in &lens {
-        for _ in 0..(if thorough { 20 } else { 3 }) {
+        for _ in 0..(if len > 5000 { 1 } else if thorough { 20 } else { 3 }) {
             let sbn = rng.below(256) as u8;
             let esi = edge32(rng);
             let data = rng.bytes(len);
